@@ -48,7 +48,7 @@ MUTATORS = {'append', 'pop', 'extend', 'insert', 'remove', 'clear', 'update', 's
 ENV_BASES = {'sys', 'os', 'logging'}
 
 KINDS = {'int': 0, 'stack': 1, 'value': 2, 'map': 3, 'memo': 4}
-ISOS = {'none': 0, 'reset': 1, 'perdoc': 2, 'memo': 3, 'render': 4, 'env': 5}
+ISOS = {'none': 0, 'reset': 1, 'perdoc': 2, 'memo': 3, 'render': 4, 'env': 5, 'argscope': 6}
 
 
 def _parse(path):
@@ -118,18 +118,28 @@ def _is_type_self(e):
             and isinstance(e.args[0], ast.Name)) or (isinstance(e, ast.Attribute) and e.attr == '__class__')
 
 
+CTX_NAMES = {'context'}      # names bound to a Context in the function being scanned (set by Collector.function)
+
+
+def _ctx_key(sl):
+    """the key of a context lookup: constant -> the name; '<const>' + expr -> '*<const>' (a computed name with a constant prefix);
+    anything else -> '*'"""
+    if isinstance(sl, ast.Constant) and isinstance(sl.value, str):
+        return sl.value
+    if isinstance(sl, ast.BinOp) and isinstance(sl.op, ast.Add) and isinstance(sl.left, ast.Constant) and isinstance(sl.left.value, str):
+        return '*' + sl.left.value
+    if isinstance(sl, ast.BinOp) and isinstance(sl.op, ast.Mod) and isinstance(sl.left, ast.Constant) and isinstance(sl.left.value, str):
+        return '*' + sl.left.value.split('%')[0]
+    return '*'
+
+
 def _ctx_item(e):
-    """<...>.context['name'] -> 'name' ; <...>.context[<expr>] -> '*' ; else None"""
+    """<...>.context['name'] -> 'name' ; <...>.context[<expr>] -> '*' or '*<prefix>' ; else None.  Also ctx[...] when ctx is a local
+    name bound to `<...>.context`"""
     if isinstance(e, ast.Subscript) and isinstance(e.value, ast.Attribute) and e.value.attr == 'context':
-        sl = e.slice
-        if isinstance(sl, ast.Constant) and isinstance(sl.value, str):
-            return sl.value
-        return '*'
-    if isinstance(e, ast.Subscript) and isinstance(e.value, ast.Name) and e.value.id == 'context':
-        sl = e.slice
-        if isinstance(sl, ast.Constant) and isinstance(sl.value, str):
-            return sl.value
-        return '*'
+        return _ctx_key(e.slice)
+    if isinstance(e, ast.Subscript) and isinstance(e.value, ast.Name) and e.value.id in CTX_NAMES:
+        return _ctx_key(e.slice)
     return None
 
 
@@ -267,6 +277,12 @@ class Collector:
         globals_ = set()
         aliases = {}
         own_nodes = []
+        CTX_NAMES.clear()
+        CTX_NAMES.add('context')
+        for n in ast.walk(fn):
+            if isinstance(n, ast.Assign) and len(n.targets) == 1 and isinstance(n.targets[0], ast.Name) \
+                    and isinstance(n.value, ast.Attribute) and n.value.attr == 'context':
+                CTX_NAMES.add(n.targets[0].id)
 
         def walk(node):
             for ch in ast.iter_child_nodes(node):
@@ -617,7 +633,24 @@ def build(repo):
             name, fam = w['owner'] + '.' + w['attr'], True
         elif cat == 'ctx':
             nm = w['owner']
-            if nm == '*':
+            if nm.startswith('*') and len(nm) > 1:
+                # a computed name with a constant prefix ('the' + target): the write reaches every macro class whose name starts
+                # with the prefix and that carries the attribute; classes created per document by newcounter are not in any module
+                pre = nm[1:]
+                hit = False
+                for m in sorted(col.mods.values(), key=lambda m_: m_.name):
+                    for q, cd in sorted(m.classes.items()):
+                        if q.split('.')[-1].startswith(pre) and any(
+                                isinstance(b, ast.Assign) and any(isinstance(t, ast.Name) and t.id == w['attr'] for t in b.targets)
+                                for b in cd.body):
+                            nm2 = m.name + ':' + q + '.' + w['attr']
+                            c2 = cells.setdefault(nm2, dict(name=nm2, family=False, writes=[], hows=set(), phases=set()))
+                            c2['writes'].append('%s %s (%s)' % (w['where'], w['fn'], w['how']))
+                            c2['hows'].add(w['how'])
+                            c2['phases'].add(w['phase'])
+                            hit = True
+                name, fam = 'context:' + pre + 'ANY.' + w['attr'], False      # the per-document classes of that name
+            elif nm == '*':
                 name, fam = 'context[*].' + w['attr'], True
             else:
                 hits = sorted(m.name + ':' + q for m in col.mods.values() for q in m.classes
@@ -635,6 +668,19 @@ def build(repo):
         c['writes'].append('%s %s (%s)' % (w['where'], w['fn'], w['how']))
         c['hows'].add(w['how'])
         c['phases'].add(w['phase'])
+    # A register class nested in another macro class is a LOCAL macro of that class: Context.createContext installs the class itself
+    # (only top-level macros go through importMacros), so its value is shared by all documents.  One cell per such class.
+    if any(n.split(':')[-1].endswith('ParameterCommand.value') for n in cells):
+        for m in sorted(col.mods.values(), key=lambda m_: m_.name):
+            for q, cd in sorted(m.classes.items()):
+                if '.' in q and subclass_of(col, m.name + ':' + q, 'ParameterCommand'):
+                    outer = q.rsplit('.', 1)[0]
+                    nm2 = m.name + ':' + q + '.value'
+                    c2 = cells.setdefault(nm2, dict(name=nm2, family=False, writes=[], hows=set(), phases=set()))
+                    c2['writes'] += [w_ for n_, c_ in cells.items() if n_.split(':')[-1] == 'ParameterCommand.value' for w_ in c_['writes']]
+                    c2['hows'].add('set')
+                    c2['phases'].add('run')
+                    c2['nested_in'] = m.name + ':' + outer
     out = []
     for name in sorted(cells):
         c = cells[name]
@@ -654,6 +700,16 @@ def build(repo):
         # isolation
         if name.startswith('env:') or name.startswith('plasTeX.Logging') or name.startswith('plasTeX.Compile'):
             iso = 'env'
+        elif c.get('nested_in'):
+            # the local macros of a Command are in scope only while its arguments are read, and parameters are disabled there
+            # (TeX.readArgumentAndSource): an assignment is never executed.  The local macros of an Environment stay in scope for
+            # its whole body: assignments are executed on the shared class.
+            if subclass_of(col, c['nested_in'], 'Environment'):
+                iso = 'none'
+                c['why'] = 'register class nested in an environment class: installed as a local macro, never re-created per document'
+            else:
+                iso = 'argscope'
+                c['why'] = 'register class nested in a command class: in scope only while arguments are read (parameters disabled)'
         elif hows == {'selfassign'}:
             iso = 'memo'      # `global N; N = N`: writes the value the variable already has
             c['why'] = 'self-assignment of a module variable'
@@ -708,7 +764,7 @@ def generate(repo, gen_dir, known_cells=()):
              '   One row per interpreter-wide cell (class attribute or module variable) that some statement writes:',
              '   (id, kind, isolation, known, name)   kind: 0 int  1 stack  2 value  3 map  4 memo',
              '   isolation: 0 none  1 reset in Context.__init__  2 owning class re-created per document  3 memo of the class definition',
-             '              4 renderer phase  5 process environment / logging',
+             '              4 renderer phase  5 process environment / logging  6 local register of a command (in scope only while arguments are read)',
              '   known: 1 when the cell is listed in notes/C17/known.json (recorded leak) *)',
              'From Coq Require Import List ZArith.', 'Import ListNotations.', 'Local Open Scope Z_scope.', '',
              'Definition gen_cells : list (Z * Z * Z * Z * list Z) := [']
